@@ -114,6 +114,17 @@ def handle (st : DState) (line : String) : DState × String :=
       | ["merged"] => run .obsMerged
       | _ => (st, "bad-op")
     | "backend" => (st, runBackend args)
+    | "syxread" => match parseNats args with
+      | some bs => (st, showExcept showMsgs (readSyx bs))
+      | none => (st, "bad-op")
+    | "syxwrite" => match args with
+      | fmt :: rest =>
+        let groups := if rest.isEmpty then [] else (splitTracks rest).filter (fun g => !g.isEmpty)
+        match groups.mapM parseMsg with
+        | some ms => if fmt == "text" then (st, showList ((writeSyxText ms).map Char.toNat))
+                     else (st, showList (writeSyxBin ms))
+        | none => (st, "bad-op")
+      | _ => (st, "bad-op")
     | "preset" => ({ st with p := {} }, "ok")
     | "pfeed" => match parseInts args with
       | some bs => let (p, o) := pstep st.p (.feed bs); ({ st with p := p }, o.show)
